@@ -63,6 +63,10 @@ FORCED = [
     [("pop3", ["DELE 3", "QUIT"]), ("INBOX", ["EXPUNGE"]), ("INBOX", ["UID COPY 3:5 other"])],
     [("pop3", ["DELE 1", "DELE 3", "QUIT"]), ("INBOX", ["UID STORE 1:* -FLAGS (\\Deleted)"]), ("INBOX", ["UID FETCH 1:* (FLAGS BODY.PEEK[HEADER.FIELDS (X-CID)] BODY.PEEK[])"])],
     [("INBOX", ["UID STORE 1:* -FLAGS (\\Deleted)", "UID MOVE 1,3 other"]), ("INBOX", ["UID COPY 1:5 other"]), ("INBOX", ["UID FETCH 1:* (FLAGS BODY.PEEK[HEADER.FIELDS (X-CID)] BODY.PEEK[])"])],
+    # no message is flagged \\Deleted: an ordinary EXPUNGE has nothing to do and does not wait, MOVE's own removal must
+    [("#", ["nodeleted"]), ("INBOX", ["UID MOVE 1 other"]), ("INBOX", ["UID COPY 1:5 other"])],
+    [("#", ["nodeleted"]), ("INBOX", ["UID MOVE 2:3 other"]), ("INBOX", ["UID COPY 1:5 other"]), ("INBOX", ["UID FETCH 1:5 (FLAGS BODY.PEEK[HEADER.FIELDS (X-CID)] BODY.PEEK[])"])],
+    [("#", ["nodeleted"]), ("INBOX", ["UID MOVE 1,4 other", "NOOP"]), ("INBOX", ["UID STORE 1:5 +FLAGS (\\Flagged)", "UID COPY 3:5 other"])],
     # POP3 reads its snapshot while IMAP removes messages
     [("pop3", ["RETR 5", "RETR 3", "QUIT"]), ("INBOX", ["EXPUNGE"])],
     [("pop3", ["TOP 4 1", "RETR 5", "RETR 1"]), ("INBOX", ["UID MOVE 1:2 other"]), ("INBOX", ["UID FETCH 3:5 (FLAGS BODY.PEEK[HEADER.FIELDS (X-CID)])"])],
@@ -85,12 +89,12 @@ def gen_set(rnd):
     return out
 
 
-async def setup_state(rig):
+async def setup_state(rig, nodeleted=False):
     cids = CidFactory("q")
     s = rig.session("Z")
     await s.cmd("CREATE other")
     table = {}
-    for i, fl in enumerate(INBOX_FLAGS):
+    for i, fl in enumerate([[f for f in x if f != "\\Deleted"] for x in INBOX_FLAGS] if nodeleted else INBOX_FLAGS):
         cid, m = cids.make()
         await s.append("inbox", m, flags=fl)
         table[("INBOX", i + 1)] = cid
@@ -261,8 +265,9 @@ async def one_run(loop, ctx, cmdset, mode, order=None):
     rig = await Rig(ctx["dir"] + "/mail", loop).start()
     k = ctx["script"]
     info = {"watchdog": 0, "closed": []}
+    options = ctx.get("options") or []
     try:
-        cids, table = await setup_state(rig)
+        cids, table = await setup_state(rig, nodeleted="nodeleted" in options)
         rig.sessions_by_idx = {}
         rig.bye_sessions = set()
         for idx, (where, cmds) in enumerate(cmdset):
@@ -454,7 +459,10 @@ def explore(spec, k, cmdset, counts, scratch, nsched, systematic):
     import shutil
     import tempfile
 
-    ctx = {"script": k, "dir": None}
+    # a pseudo entry ("#", [options]) selects a variant of the initial state
+    options = [o for w_, cs in cmdset if w_ == "#" for o in cs]
+    cmdset = [(w_, cs) for w_, cs in cmdset if w_ != "#"]
+    ctx = {"script": k, "dir": None, "options": options}
     allowed = {}
     cases = []
 
